@@ -39,6 +39,10 @@ def families():
     wd = DS.fac("d", [["x", 2], ["y", 1]])
     out.append(("factors:transition-reused", [c2, d2, e3, tr], [DS.cross(["c", "t"], ["c", "t"]), DS.cross(["c", "d", "t"], ["c", "d"]), DS.repeat(DS.cross(["c", "t"], ["c"]), [["MinimumTrials", 5]])]))
     out.append(("factors:weighted-reused", [c2, wd, e3], [DS.cross(["c", "d"], ["c"]), DS.cross(["c", "d"], ["c", "d"]), DS.cross(["e", "d"], ["e"])]))
+    # a constraint on one level of a weighted factor outside the crossing (the level is replaced when weights are desugared) shared by a block and a Repeat
+    wct = ["AtMostKInARow", 1, "d", "x"]
+    out.append(("AtMostKInARow:weighted-uncrossed-cross-then-repeat", [c2, wd, e3], [DS.cross(["c", "d"], ["c"], [wct]),
+                                                                                      DS.repeat(DS.cross(["c", "d"], ["c"], [wct]), [["MinimumTrials", 4]])]))
     return out
 
 
